@@ -5,6 +5,7 @@ mod jt;
 mod lc;
 mod lg;
 mod lz;
+mod nm;
 mod st;
 mod util;
 
@@ -23,6 +24,8 @@ fn main() {
         "lz-record" => lz::record(&args),
         "lc-replay" => lc::replay(&args),
         "lc-probe" => lc::probe(&args),
+        "nm-record" => nm::record(&args),
+        "f32-sweep" => nm::f32_sweep(&args),
         "dom-replay" => dom::replay(&args),
         "nest" => nest(&args),
         _ => { eprintln!("unknown command {cmd}"); 2 }
